@@ -113,7 +113,7 @@ func condOf(fn *ssa.Function, ins ssa.Instruction) string {
 			continue
 		}
 		k, isK := constInt(bo.Y)
-		if !isK || !strings.Contains(strings.ToLower(symKey(bo.X)), "version") {
+		if !isK || !isVersionValue(bo.X) {
 			continue
 		}
 		yes := 0
@@ -156,7 +156,7 @@ func versionDomain(fn *ssa.Function) []int64 {
 		}
 		allInstrs(f, func(ins ssa.Instruction) {
 			if bo, ok := ins.(*ssa.BinOp); ok && (bo.Op == token.EQL || bo.Op == token.NEQ) {
-				if k, isK := constInt(bo.Y); isK && strings.Contains(strings.ToLower(symKey(bo.X)), "version") {
+				if k, isK := constInt(bo.Y); isK && isVersionValue(bo.X) {
 					set[k] = true
 				}
 			}
@@ -537,7 +537,7 @@ func ruleStatsBin(c *Ctx, r *Rep, tier string) {
 				why = "the reader does not check the pseudo-bin's chunk count"
 			case h[len(h)-1].what != fmt.Sprint(wantCount):
 				why = fmt.Sprintf("the header's chunk count is %s, the reader insists on %d", h[len(h)-1].what, wantCount)
-			case h[0].what != dummyKey:
+			case limitNorm(ws, h[0].what) != limitNorm(rb, dummyKey):
 				// internal: a constant; csi: binLimit+1 on both sides
 				why = fmt.Sprintf("the header's bin number is %s, the reader recognises %s", h[0].what, dummyKey)
 			}
@@ -556,6 +556,20 @@ func ruleStatsBin(c *Ctx, r *Rep, tier string) {
 				}
 			})
 			okW := false
+			// the roles of the writer's parameters, by type: the bin list and the statistics
+			binsKey, statsKey := "?", "?"
+			for _, p := range wb.Params {
+				switch t := p.Type().(type) {
+				case *types.Slice:
+					if _, isStruct := t.Elem().Underlying().(*types.Struct); isStruct {
+						binsKey = paramKey(p)
+					}
+				case *types.Pointer:
+					if n, ok := t.Elem().(*types.Named); ok && n.Obj().Name() == "ReferenceStats" {
+						statsKey = paramKey(p)
+					}
+				}
+			}
 			if first != nil {
 				arg := first.Call.Args[2]
 				if mi, ok := arg.(*ssa.MakeInterface); ok {
@@ -567,12 +581,12 @@ func ruleStatsBin(c *Ctx, r *Rep, tier string) {
 					for _, ref := range *al.Referrers() {
 						if st, ok := ref.(*ssa.Store); ok && st.Addr == ssa.Value(al) {
 							p := polyOf(st.Val, nil).canon()
-							if p == pAtom("len(bins)").canon() {
+							if p == pAtom("len("+binsKey+")").canon() {
 								base = true
 							}
-							if p == pAtom("local:"+al.Comment).add(pConst(1), 1).canon() || p == pAtom(al.Comment).add(pConst(1), 1).canon() || p == pAtom("len(bins)").add(pConst(1), 1).canon() {
+							if p == pAtom(allocKey(al)).add(pConst(1), 1).canon() || p == pAtom("len("+binsKey+")").add(pConst(1), 1).canon() {
 								for _, b := range wb.Blocks {
-									ce, ok := classifyErrIf(b, func(v ssa.Value) bool { return symKey(v) == "stats" })
+									ce, ok := classifyErrIf(b, func(v ssa.Value) bool { return symKey(v) == statsKey })
 									if ok && ce.isNil && dominatedByEdge(wb, b, 1-ce.yes, st.Block()) {
 										inc = true
 									}
@@ -583,7 +597,7 @@ func ruleStatsBin(c *Ctx, r *Rep, tier string) {
 					okW = base && inc
 				} else {
 					p := polyOf(arg, nil).canon()
-					okW = strings.Contains(p, "len(bins)")
+					okW = strings.Contains(p, "len("+binsKey+")")
 				}
 			}
 			if !okW {
@@ -594,7 +608,7 @@ func ruleStatsBin(c *Ctx, r *Rep, tier string) {
 			allInstrs(wb, func(ins ssa.Instruction) {
 				if call, ok := ins.(*ssa.Call); ok && staticCallee(&call.Call) == ws {
 					for _, b := range wb.Blocks {
-						ce, ok := classifyErrIf(b, func(v ssa.Value) bool { return symKey(v) == "stats" })
+						ce, ok := classifyErrIf(b, func(v ssa.Value) bool { return symKey(v) == statsKey })
 						if ok && ce.isNil && dominatedByEdge(wb, b, 1-ce.yes, call.Block()) {
 							okS = true
 						}
@@ -659,7 +673,7 @@ func ruleElemCover(c *Ctx, r *Rep, tier string) {
 			}
 			// accesses to the offsets slice (parameter of the writer, result of the reader)
 			k := symKey(ia.X)
-			if k != "offsets" && !strings.HasPrefix(k, "make([]") {
+			if !isOffsetSlice(ia.X.Type()) || (!strings.HasPrefix(k, "$") && !strings.HasPrefix(k, "make([]")) {
 				return
 			}
 			if _, isSl := ia.X.Type().Underlying().(*types.Slice); !isSl {
@@ -697,7 +711,7 @@ func ruleElemCover(c *Ctx, r *Rep, tier string) {
 			r.Instance(rule, 1)
 			rng := false
 			allInstrs(fn, func(ins ssa.Instruction) {
-				if ia, ok := ins.(*ssa.IndexAddr); ok && symKey(ia.X) == "offsets" {
+				if ia, ok := ins.(*ssa.IndexAddr); ok && isOffsetSlice(ia.X.Type()) {
 					rng = true
 				}
 			})
@@ -734,7 +748,7 @@ func ruleFlagTabix(c *Ctx, r *Rep, tier string) {
 		for _, zb := range []int64{0, 1} {
 			n++
 			// run the writer up to its first Write and take the value handed over
-			env := map[string]int64{"idx.Format": format, "idx.ZeroBased": zb}
+			env := map[string]int64{"$1.Format": format, "$1.ZeroBased": zb}
 			sr := symExecAt(wfn, entryLoc(wfn), func(i ssa.Instruction) bool { return i == ssa.Instruction(first) }, env)
 			if sr.Undec != "" {
 				why = "the format word depends on " + sr.Undec + " besides Format and ZeroBased"
@@ -750,18 +764,28 @@ func ruleFlagTabix(c *Ctx, r *Rep, tier string) {
 				break
 			}
 			// run the reader from after its first Read with that word
-			renv := map[string]int64{"format": word, "local:format": word}
+			renv := map[string]int64{}
+			// the variable the reader's first binary.Read fills
+			if len(firstR.Call.Args) == 3 {
+				dst := firstR.Call.Args[2]
+				if mi, ok := dst.(*ssa.MakeInterface); ok {
+					dst = mi.X
+				}
+				if al, ok := dst.(*ssa.Alloc); ok {
+					renv[allocKey(al)] = word
+				}
+			}
 			rr := symExecAt(rfn, locOf(firstR), func(i ssa.Instruction) bool {
 				call, ok := i.(*ssa.Call)
 				return ok && calleeFullName(&call.Call) == "encoding/binary.Read"
 			}, renv)
 			got := map[string]string{}
 			for _, e := range rr.Effects {
-				if strings.HasPrefix(e, "store idx.Format = ") {
-					got["Format"] = strings.TrimPrefix(e, "store idx.Format = ")
+				if strings.HasPrefix(e, "store $1.Format = ") {
+					got["Format"] = strings.TrimPrefix(e, "store $1.Format = ")
 				}
-				if strings.HasPrefix(e, "store idx.ZeroBased = ") {
-					got["ZeroBased"] = strings.TrimPrefix(e, "store idx.ZeroBased = ")
+				if strings.HasPrefix(e, "store $1.ZeroBased = ") {
+					got["ZeroBased"] = strings.TrimPrefix(e, "store $1.ZeroBased = ")
 				}
 			}
 			gf, okF := symEvalKeyed(rfn, firstR, "Format", renv)
@@ -903,7 +927,8 @@ func ruleSortFlag(c *Ctx, r *Rep, tier string) {
 							continue
 						}
 						kx, ky := symKey(bo.X), symKey(bo.Y)
-						if (strings.HasSuffix(kx, "in") && strings.HasSuffix(strings.ToLower(ky), ".bin")) || (strings.HasSuffix(ky, "in") && strings.HasSuffix(strings.ToLower(kx), ".bin")) {
+						heldX, heldY := strings.HasSuffix(strings.ToLower(kx), ".bin"), strings.HasSuffix(strings.ToLower(ky), ".bin")
+						if heldX != heldY { // a bin number already held compared with another value (the new bin's number)
 							if dominatedByEdge(fn, b, 0, x.Block()) {
 								ok = true
 							}
@@ -975,7 +1000,7 @@ func ruleLimitAgree(c *Ctx, r *Rep, tier string) {
 	why := ""
 	if w == nil || rd == nil {
 		why = "the bin limit handed to writeIndices/readIndices was not found"
-	} else if typedKey(w, 0) != typedKey(rd, 0) {
+	} else if idxNorm(c, "WriteTo", typedKey(w, 0)) != idxNorm(c, "ReadFrom", typedKey(rd, 0)) {
 		why = fmt.Sprintf("the writer computes the bin limit as %s, the reader as %s: where they differ (overflow at depth ≥ 10) the reader does not recognise the writer's pseudo-bin", typedKey(w, 0), typedKey(rd, 0))
 	}
 	r.Check(why == "", rule, "csi.WriteTo/ReadFrom#bin-limit", c.Pos(c.Func("csi", "WriteTo").Pos()), "same expression and integer types on both sides", why)
@@ -984,8 +1009,8 @@ func ruleLimitAgree(c *Ctx, r *Rep, tier string) {
 	find := func(fn *ssa.Function) string {
 		out := ""
 		allInstrs(fn, func(ins ssa.Instruction) {
-			if bo, ok := ins.(*ssa.BinOp); ok && bo.Op == token.ADD && symKey(bo.X) == "binLimit" {
-				out = typedKey(bo, 0)
+			if bo, ok := ins.(*ssa.BinOp); ok && bo.Op == token.ADD && symKey(bo.X) == uint32ParamKey(fn) {
+				out = limitNorm(fn, typedKey(bo, 0))
 			}
 		})
 		return out
@@ -1128,34 +1153,58 @@ func ruleStatsAdd(c *Ctx, r *Rep, tier string) {
 		if nOK == 0 || w.overflow {
 			why = "no successful path enumerated"
 		}
-		// which counter: by the placed / mapped arguments
+		// which counter: by the two boolean arguments – one of them (placed)
+		// selects the unplaced counter on its false edge, the other (mapped)
+		// selects mapped on its true and unmapped on its false edge. The
+		// parameters are told apart by that behaviour, not by their names.
 		if why == "" {
+			guards := map[string]map[string]bool{} // counter kind → "param/edge" guards that dominate every increment
 			allInstrs(fn, func(ins ssa.Instruction) {
 				k := kindOf(ins)
 				if k == "" {
 					return
 				}
-				wantParam, wantEdge := "mapped", 0
-				switch k {
-				case "unmapped":
-					wantEdge = 1
-				case "unplaced":
-					wantParam, wantEdge = "placed", 1
-				}
-				ok := false
+				here := map[string]bool{}
 				for _, b := range fn.Blocks {
 					iff := ifOf(b)
-					if iff == nil {
+					if iff == nil || b.Succs[0] == b.Succs[1] {
 						continue
 					}
-					if p, isP := iff.Cond.(*ssa.Parameter); isP && p.Name() == wantParam && dominatedByEdge(fn, b, wantEdge, ins.Block()) {
-						ok = true
+					if p, isP := iff.Cond.(*ssa.Parameter); isP {
+						for e := 0; e < 2; e++ {
+							if dominatedByEdge(fn, b, e, ins.Block()) {
+								here[fmt.Sprintf("%s/%d", paramKey(p), e)] = true
+							}
+						}
 					}
 				}
-				if !ok {
-					why += fmt.Sprintf(" the %s counter is incremented at %s but not under %s=%v;", k, c.Pos(ins.Pos()), wantParam, wantEdge == 0)
+				if prev, seen := guards[k]; seen {
+					for g := range prev {
+						if !here[g] {
+							delete(prev, g)
+						}
+					}
+				} else {
+					guards[k] = here
 				}
 			})
+			var bools []string
+			for _, p := range fn.Params {
+				if b, ok := p.Type().Underlying().(*types.Basic); ok && b.Kind() == types.Bool {
+					bools = append(bools, paramKey(p))
+				}
+			}
+			found := false
+			for _, x := range bools {
+				for _, y := range bools {
+					if x != y && guards["unplaced"][x+"/1"] && guards["mapped"][y+"/0"] && guards["unmapped"][y+"/1"] {
+						found = true
+					}
+				}
+			}
+			if !found {
+				why += fmt.Sprintf(" the counters are not selected by the two boolean arguments (unplaced on the false edge of one, mapped/unmapped on the two edges of the other); dominating guards found: %v;", guards)
+			}
 		}
 		r.Check(why == "", rule, f[0]+"."+f[1]+"#one-count", c.Pos(fn.Pos()), fmt.Sprintf("%d successful paths: exactly one of mapped/unmapped/unplaced is incremented, selected by the placed and mapped arguments", nOK), why)
 	}
@@ -1164,7 +1213,7 @@ func ruleStatsAdd(c *Ctx, r *Rep, tier string) {
 	{
 		fn := c.Func("tabix", "(*Index).Add")
 		effs := effectsOf(fn)
-		ap := hasEff(effs, "store", "i.refNames", "append(i.refNames,[r.RefName()])")
+		ap := hasEff(effs, "store", "$0.refNames", "append($0.refNames,[$1.RefName()])")
 		why := ""
 		if ap == nil {
 			why = "no append to refNames found"
@@ -1177,7 +1226,7 @@ func ruleStatsAdd(c *Ctx, r *Rep, tier string) {
 					continue
 				}
 				bo, isBo := iff.Cond.(*ssa.BinOp)
-				if !isBo || bo.Op != token.LSS || symKey(bo.Y) != "len(i.idx.Refs)" {
+				if !isBo || bo.Op != token.LSS || symKey(bo.Y) != "len($0.idx.Refs)" {
 					continue
 				}
 				var addCall ssa.Instruction
@@ -1240,4 +1289,67 @@ func init() {
 		Explanation: "A symmetric mistake survives a round trip and an asymmetric one breaks it; both are visible when the writer's and the reader's item sequences are laid side by side. The WIRE rules flatten each writer and reader (helpers inlined in call order) into items (width, loop depth, version condition, field role) and compare them position by position; COUNT-ONE covers the one place where the two sides are shaped differently (the statistics pseudo-bin: written after the bins from an array literal, read inside the bin loop); ELEM-COVER, FLAG-TABIX, STATS-ADD and PATH-SORT-BEFORE-WRITE cover element indexing, the packed format word, the counters and the canonical order that 'identical bytes' relies on.",
 		NotDecided:  "that Chunks answers are equal before and after (follows from equal contents given C04's rules, not shown separately), name bytes of tabix (NUL-separated list) beyond its length item, the CSI bin-limit arithmetic.",
 	})
+}
+
+// idxNorm: the key of the index object (the *Index parameter of the writer, the
+// local Index of the reader) replaced by one placeholder, so that the two sides'
+// expressions can be compared.
+func idxNorm(c *Ctx, fnName, key string) string {
+	fn := c.Func("csi", fnName)
+	for _, p := range fn.Params {
+		if pt, ok := p.Type().(*types.Pointer); ok {
+			if n, ok := pt.Elem().(*types.Named); ok && n.Obj().Name() == "Index" {
+				key = strings.ReplaceAll(key, paramKey(p), "INDEX")
+			}
+		}
+	}
+	return strings.ReplaceAll(key, "local:Index", "INDEX")
+}
+
+// uint32ParamKey: the key of fn's only uint32 parameter (the CSI bin limit).
+func uint32ParamKey(fn *ssa.Function) string {
+	k := "?"
+	for _, p := range fn.Params {
+		if b, ok := p.Type().Underlying().(*types.Basic); ok && b.Kind() == types.Uint32 {
+			k = paramKey(p)
+		}
+	}
+	return k
+}
+
+// isVersionValue: the format version – the field Version of an index, or a
+// byte-typed parameter it was handed down in (no other byte parameter exists in
+// the index packages; the name of the parameter does not matter).
+func isVersionValue(v ssa.Value) bool {
+	v = stripConv(v)
+	if f, _ := loadedField(v); f != nil {
+		return f.Name() == "Version"
+	}
+	if fl, ok := v.(*ssa.Field); ok {
+		return fieldVarOfField(fl).Name() == "Version"
+	}
+	if p, ok := v.(*ssa.Parameter); ok {
+		b, ok := p.Type().Underlying().(*types.Basic)
+		return ok && b.Kind() == types.Uint8
+	}
+	return false
+}
+
+// limitNorm: the key of fn's bin-limit parameter replaced by a placeholder (the
+// writer and the reader have it at different positions).
+func limitNorm(fn *ssa.Function, key string) string {
+	if k := uint32ParamKey(fn); k != "?" {
+		return strings.ReplaceAll(key, k, "LIMIT")
+	}
+	return key
+}
+
+// isOffsetSlice: []bgzf.Offset (the linear index).
+func isOffsetSlice(t types.Type) bool {
+	sl, ok := t.Underlying().(*types.Slice)
+	if !ok {
+		return false
+	}
+	n, ok := sl.Elem().(*types.Named)
+	return ok && n.Obj().Name() == "Offset"
 }
